@@ -6,7 +6,7 @@ from lib import Result, model_call, run_sharded, e_fmt, e_f64, Reader
 
 RULE = ('pairs of formats with n_word<=24 (any signedness mix, n_frac -1..n_word+1) with values chosen adjacent to each other across the two formats (equal, one LSB apart, at the bounds), '
         'Fxp vs Fxp (scalars and arrays) and Fxp vs plain number (int and float); conversions get_val / astype(float) / float() / astype(int) / int() / bool() / raw() / uraw() for every code of every '
-        'format with n_word<=6 (quick) / <=8 (thorough) and n_frac -1..n_word+1, plus random wider formats; the left object is reached by four histories (raw constructor; built from integers, resized, then written raw or through equal(); like= an integer object with n_frac=). The six relations and the conversions are evaluated with exact rationals on the implementation output and '
+        'format with n_word<=6 (quick) / <=8 (thorough) and n_frac -1..n_word+1, plus random wider formats; the left object is reached by four histories (raw constructor; built from integers, resized, then written raw or through equal(); like= an integer object with n_frac=). Numbers also on the left (Python, np.float64, np.int64 / np.float32), array_op_method raw on the left object, and the six NumPy comparison functions called by name (default method). The six relations and the conversions are evaluated with exact rationals on the implementation output and '
         'compared with the model. Non-trivial = the two values differ by at most 2 LSB of the finer format (comparisons) / the code is non-zero (conversions); distinct by full input.')
 ASSUMPTIONS = []
 OPS = ['<', '<=', '==', '!=', '>', '>=']
